@@ -25,6 +25,15 @@ func Root() string {
 	return "/verif"
 }
 
+// OutRoot is where evidence/ and replays/ are written: the root itself, unless VERIF_OUT redirects them
+// (used when a check is run against a scratch copy of the repository, so the committed evidence is not touched).
+func OutRoot() string {
+	if r := os.Getenv("VERIF_OUT"); r != "" {
+		return r
+	}
+	return Root()
+}
+
 type crashInfo struct{ key, stderr string }
 
 type workerOutcome struct {
@@ -227,7 +236,7 @@ func Supervise(self, id, tier string) int {
 	}
 	defer os.RemoveAll(tmp)
 
-	if olds, err := filepath.Glob(filepath.Join(root, "replays", id, "*.json*")); err == nil {
+	if olds, err := filepath.Glob(filepath.Join(OutRoot(), "replays", id, "*.json*")); err == nil {
 		for _, o := range olds {
 			os.Remove(o)
 		}
@@ -377,8 +386,8 @@ func Supervise(self, id, tier string) int {
 	}
 	reported := 0
 	nondeterministic := 0
-	os.MkdirAll(filepath.Join(root, "replays", id), 0o755)
-	if f, err := os.Create(filepath.Join(root, "replays", id, "_all.jsonl")); err == nil {
+	os.MkdirAll(filepath.Join(OutRoot(), "replays", id), 0o755)
+	if f, err := os.Create(filepath.Join(OutRoot(), "replays", id, "_all.jsonl")); err == nil {
 		for i := range fresh {
 			b, _ := json.Marshal(fresh[i])
 			f.Write(append(b, '\n'))
@@ -392,7 +401,7 @@ func Supervise(self, id, tier string) int {
 		v := &fresh[i]
 		b, _ := json.MarshalIndent(v, "", " ")
 		sum := sha1.Sum([]byte(v.Check + "\x00" + v.Key))
-		path := filepath.Join(root, "replays", id, hex.EncodeToString(sum[:6])+".json")
+		path := filepath.Join(OutRoot(), "replays", id, hex.EncodeToString(sum[:6])+".json")
 		os.WriteFile(path, b, 0o644)
 		// confirm in fresh processes (a crash case is confirmed by crashing again)
 		if ch.Replay != nil && !isCrash(v) {
@@ -464,9 +473,9 @@ func Supervise(self, id, tier string) int {
 		"wall_s":      time.Since(start).Seconds(),
 		"violations":  len(fresh) + int(unkept),
 	}
-	os.MkdirAll(filepath.Join(root, "evidence"), 0o755)
+	os.MkdirAll(filepath.Join(OutRoot(), "evidence"), 0o755)
 	b, _ := json.MarshalIndent(ev, "", " ")
-	if err := os.WriteFile(filepath.Join(root, "evidence", id+".json"), b, 0o644); err != nil {
+	if err := os.WriteFile(filepath.Join(OutRoot(), "evidence", id+".json"), b, 0o644); err != nil {
 		fmt.Fprintln(os.Stderr, err)
 		return 2
 	}
